@@ -27,7 +27,8 @@ class SetEncoder(encoder.SetEncoder):
 
         if compType.typeId == univ.Choice.typeId and not compType.tagSet:
             if asn1Spec is None:
-                return component.getComponent().tagSet
+                # the tag the value is encoded under, also through nested CHOICEs
+                return component.effectiveTagSet
             else:
                 # TODO: move out of sorting key function
                 names = [namedType.name for namedType in asn1Spec.componentType.namedTypes
